@@ -649,6 +649,14 @@ impl World {
         Self::new_with_factory(cfg, vfactory)
     }
 
+    /// A signer with the validator factory vlsd uses by default: OnchainValidatorFactory wrapping
+    /// the simple validator with the configured policy.
+    pub fn new_onchain(cfg: WorldCfg) -> World {
+        let inner = SimpleValidatorFactory::new_with_policy(cfg.policy.clone());
+        let vfactory: Arc<dyn ValidatorFactory> = Arc::new(lightning_signer::policy::onchain_validator::OnchainValidatorFactory::new_with_simple_factory(inner));
+        Self::new_with_factory(cfg, vfactory)
+    }
+
     pub fn new_with_factory(cfg: WorldCfg, vfactory: Arc<dyn ValidatorFactory>) -> World {
         let store: Arc<MemPersister> = Arc::new(KVVPersister(MemoryKVVStore::new(SIGNER_ID), JsonFormat));
         let clock = Arc::new(ManualClock::new(Duration::from_secs(cfg.now_secs)));
